@@ -438,6 +438,44 @@ pub fn int_boundary_prefix(r: &mut Rng, b: i128) -> u128 {
     if c < P34 { enc(neg, c, e) } else { finite(r) }
 }
 
+/// A value at a range boundary of one integer type (class 0 = i32, 1 = i64, 2 = u32, 3 = u64 in the order of `TO_INT`), written
+/// with a coefficient of q digits for q uniform in 1..=34: for q up to the number of digits of the bound a (tweaked) prefix with
+/// a positive exponent (so that every `q + exp = digits(bound)` arm of the range checks is visited, including one- and
+/// two-digit coefficients), beyond that the bound ± an integer offset plus a fraction at {0, ±1 unit, ½, ½ ± 1 unit, 1 − unit}.
+pub fn int_boundary_for(r: &mut Rng, class: usize) -> u128 {
+    let bounds: &[i128] = match class {
+        0 => &[i32::MAX as i128, i32::MIN as i128, i32::MAX as i128 + 1, i32::MIN as i128 - 1],
+        1 => &[i64::MAX as i128, i64::MIN as i128, i64::MAX as i128 + 1, i64::MIN as i128 - 1],
+        2 => &[u32::MAX as i128, u32::MAX as i128 + 1, 0, -1],
+        _ => &[u64::MAX as i128, u64::MAX as i128 + 1, 0, -1],
+    };
+    let b = *r.pick(bounds);
+    let neg = if b == 0 { r.chance(1, 2) } else { b < 0 };
+    let mag = b.unsigned_abs();
+    let s = mag.to_string();
+    let len = s.len() as u32;
+    let q = 1 + r.below(34) as u32;
+    if q <= len && mag != 0 {
+        let prefix: u128 = s[..q as usize].parse().unwrap();
+        let tweak: i128 = *r.pick(&[0i128, 0, 1, -1, 2, -2]);
+        let p = ((prefix as i128 + tweak).max(1)) as u128;
+        enc(neg, p, (len - q) as i32)
+    } else {
+        let k = if mag == 0 { q } else { q - len };                  // fractional digits
+        let off: i128 = *r.pick(&[0i128, 0, 0, 1, -1, 2, -2]);
+        let int_part = (mag as i128 + off).max(0) as u128;
+        if k == 0 { return enc(neg, int_part, 0); }
+        let unit = pow10(k);
+        let half = 5 * pow10(k - 1);
+        let frac = match r.below(9) {
+            0 => 0, 1 => 1, 2 => half, 3 => half - 1.min(half), 4 => half + 1, 5 => unit - 1,
+            6 => r.u128() % unit, 7 => half + (r.u128() % 1000).min(half - 1), _ => half - (r.u128() % 1000).min(half),
+        };
+        let c = int_part * unit + frac;
+        if c < P34 && c > 0 { enc(neg, c, -(k as i32)) } else { enc(neg, (int_part).max(1), 0) }
+    }
+}
+
 pub fn int_boundary_operand(r: &mut Rng) -> u128 {
     let bounds: [i128; 12] = [
         i32::MAX as i128, i32::MIN as i128, u32::MAX as i128, i64::MAX as i128, i64::MIN as i128, u64::MAX as i128,
@@ -479,7 +517,19 @@ pub fn near_tie_coeff(r: &mut Rng) -> (u128, u32) {
     let kept = if r.chance(1, 2) { kept | 1 } else { kept & !1u128 };
     let half = 5 * pow10(k - 1);
     let unit = pow10(k);
-    let delta: i128 = match r.below(10) {
+    let delta: i128 = match r.below(12) {
+        10 | 11 => {
+            // reciprocal-residue offsets: δ = ⌈j·10^k / 2^a⌉ for small j, i.e. δ·2^a/10^k lies just above an integer.  The
+            // code divides by 10^k by multiplying with ⌈2^(a+128)/10^k⌉-like constants; for such δ the low part of that product
+            // is smaller than the constant, which is where the exact-tie / exact-quotient tests on the low words decide.
+            let lg = 128 - unit.leading_zeros() as i32 - 1;                  // floor(log2(10^k))
+            let a = (lg - 1 - r.below(40) as i32).max(0) as u32;
+            let j = 1 + r.below(2000) as u128;
+            let num = j.checked_mul(unit);
+            let d = match num { Some(n) => ((n + (1u128 << a) - 1) >> a) as i128, None => 1 };
+            let d = d.min(half as i128 - 1).max(1);
+            if r.chance(1, 2) { d } else { -d }
+        }
         0 => 0,
         1 => 1, 2 => -1,
         3 => r.range(1, 100_000) as i128,
@@ -700,3 +750,101 @@ pub fn flags_in(r: &mut Rng) -> u32 {
 }
 
 pub fn case(op: &str, mode: char, fl: u32, args: Vec<Val>) -> Case { Case::new(op, mode, fl, args) }
+
+
+// ---------------------------------------------------------------------------------------------------------------
+// inputs of the crate-internal helper routines (reached through the cfg hook, ops `hk_<name>`)
+
+/// 256-bit unsigned integer, little-endian words (only what the generators need).
+#[derive(Clone, Copy, Debug, PartialEq, Eq)]
+pub struct U256(pub [u64; 4]);
+impl U256 {
+    pub fn from_u128(x: u128) -> U256 { U256([x as u64, (x >> 64) as u64, 0, 0]) }
+    pub fn mul_u64(self, m: u64) -> U256 {
+        let mut out = [0u64; 4];
+        let mut carry: u128 = 0;
+        for i in 0..4 { let t = self.0[i] as u128 * m as u128 + carry; out[i] = t as u64; carry = t >> 64; }
+        U256(out)
+    }
+    pub fn add(self, o: U256) -> U256 {
+        let mut out = [0u64; 4];
+        let mut carry = 0u128;
+        for i in 0..4 { let t = self.0[i] as u128 + o.0[i] as u128 + carry; out[i] = t as u64; carry = t >> 64; }
+        U256(out)
+    }
+    pub fn sub(self, o: U256) -> U256 {
+        let mut out = [0u64; 4];
+        let mut borrow = 0i128;
+        for i in 0..4 { let t = self.0[i] as i128 - o.0[i] as i128 - borrow; if t < 0 { out[i] = (t + (1i128 << 64)) as u64; borrow = 1; } else { out[i] = t as u64; borrow = 0; } }
+        U256(out)
+    }
+    pub fn pow10(n: u32) -> U256 { let mut x = U256([1, 0, 0, 0]); for _ in 0..n { x = x.mul_u64(10); } x }
+    pub fn lt(self, o: U256) -> bool { for i in (0..4).rev() { if self.0[i] != o.0[i] { return self.0[i] < o.0[i]; } } false }
+    /// self mod m for m > 0 by shift-subtract (slow; generator use only)
+    pub fn rem(self, m: U256) -> U256 {
+        let mut r = U256([0; 4]);
+        for bit in (0..256).rev() {
+            // r = r * 2 + bit
+            let mut nr = [0u64; 4];
+            for i in (0..4).rev() { nr[i] = (r.0[i] << 1) | if i > 0 { r.0[i - 1] >> 63 } else { 0 }; }
+            nr[0] |= (self.0[bit / 64] >> (bit % 64)) & 1;
+            r = U256(nr);
+            if !r.lt(m) { r = r.sub(m); }
+        }
+        r
+    }
+}
+
+/// A random integer with exactly `q` decimal digits (q ≤ 76).
+pub fn big_digits(r: &mut Rng, q: u32) -> U256 {
+    let lo = U256::pow10(q - 1);
+    let span = lo.mul_u64(9);                       // 10^q - 10^(q-1)
+    let raw = U256([r.next(), r.next(), r.next(), r.next()]);
+    lo.add(raw.rem(span))
+}
+
+/// Input of the digit-removal rounding helpers: (width index 0..3, q, x, C) with C = a·10^x + t, a of q−x digits from
+/// {random, all nines (carry into the next digit), 10^(q−x−1), forced even, forced odd}, t from
+/// {0, 1, ½−1, ½, ½+1, 10^x−1, random}.
+pub fn hk_round_input(r: &mut Rng) -> (usize, u32, u32, U256) {
+    let w = r.below(4) as usize;
+    let (qlo, qhi) = [(2u32, 18u32), (19, 38), (39, 57), (58, 76)][w];
+    let q = if r.chance(1, 4) { *r.pick(&[qlo, qhi]) } else { qlo + r.below((qhi - qlo + 1) as u64) as u32 };
+    let x = if r.chance(1, 5) { *r.pick(&[1, q - 1]) } else { 1 + r.below((q - 1) as u64) as u32 };
+    let keep = q - x;
+    let mut a = match r.below(6) {
+        0 => U256::pow10(keep).sub(U256([1, 0, 0, 0])),
+        1 => U256::pow10(keep - 1),
+        _ => big_digits(r, keep),
+    };
+    match r.below(4) { 0 => a.0[0] |= 1, 1 => { if a.0[0] & 1 == 1 && !(keep == 1 && a.0[0] == 1 && a.0[1] == 0) { a.0[0] &= !1; } } _ => {} }
+    if a.lt(U256::pow10(keep - 1)) { a = U256::pow10(keep - 1); }
+    let unit = U256::pow10(x);
+    let half = U256::pow10(x - 1).mul_u64(5);
+    let one = U256([1, 0, 0, 0]);
+    let t = match r.below(9) {
+        0 => U256([0; 4]),
+        1 => one,
+        2 => half.sub(one),
+        3 => half,
+        4 => half.add(one),
+        5 => unit.sub(one),
+        6 => { let d = U256([r.below(1000), 0, 0, 0]); if d.lt(half) { half.add(d) } else { half } }
+        7 => { let d = U256([r.below(1000), 0, 0, 0]); if d.lt(half) { half.sub(d) } else { half } }
+        _ => U256([r.next(), r.next(), r.next(), r.next()]).rem(unit),
+    };
+    let mut c = U256([0; 4]);
+    // a * 10^x: multiply step by step
+    let mut ax = a; for _ in 0..x { ax = ax.mul_u64(10); }
+    c = c.add(ax).add(t);
+    (w, q, x, c)
+}
+
+/// A 64-bit word with the shapes carry chains care about.
+pub fn hk_word(r: &mut Rng) -> u64 {
+    match r.below(12) {
+        0 => 0, 1 => 1, 2 => u64::MAX, 3 => u64::MAX - 1, 4 => 1 << 63, 5 => (1 << 63) - 1,
+        6 => 0xffff_ffff, 7 => 0x1_0000_0000, 8 => 0xffff_ffff_0000_0000, 9 => r.below(1 << 16),
+        _ => r.next(),
+    }
+}
